@@ -265,6 +265,18 @@ impl ItsBinder {
             "asset" => {
                 if sym { "USDC".chars().cycle().take(len).collect() } else { "USDC:GA5ZSEJYB37JRC5AVCIA5MOP4RHTM335X2KGX3IHOJAPP5RE34K4KZVN".chars().cycle().take(len).collect() }
             }
+            // text that ends in NUL bytes (zero-padded asset codes), and a symbol made of NUL bytes only
+            "nulpad" => {
+                let keep = if sym { len.saturating_sub(1) } else { len.saturating_sub(3) };
+                let mut t: String = "US Dollar Coin".chars().cycle().take(keep).collect();
+                while t.len() < len {
+                    t.push('\0');
+                }
+                t
+            }
+            "nulsym" => {
+                if sym { std::iter::repeat('\0').take(len).collect() } else { "Zero Symbol Token".chars().cycle().take(len).collect() }
+            }
             _ => "InterchainTokenNameABCDEFGHIJKLMNOPQRSTUVWXYZ".chars().cycle().take(len).collect(),
         };
         base.into_bytes()
@@ -330,7 +342,14 @@ impl ItsBinder {
         }
     }
     fn data_bytes(d: &str) -> Vec<u8> {
-        if d == "none" { vec![] } else { d.bytes().chain([0xDA, 0x7A]).collect() }
+        if d == "none" {
+            vec![]
+        } else if d.starts_with('b') && d[1..].parse::<usize>().is_ok() {
+            // "b<n>": exactly n bytes (1, 31, 32, 33, ...)
+            (0..d[1..].parse::<usize>().unwrap()).map(|i| (i * 7 + 0x5A) as u8).collect()
+        } else {
+            d.bytes().chain([0xDA, 0x7A]).collect()
+        }
     }
     /// concrete payload bytes of an abstract payload catalogue entry
     pub fn payload_bytes(&mut self, pname: &str) -> Vec<u8> {
@@ -400,7 +419,7 @@ impl ItsBinder {
             buf.copy_from_slice(&a);
             let amt = i128::from_be_bytes(buf);
             let data = jbytes(&m["data"]);
-            let dname = if data.is_empty() { "none".to_string() } else { ["d1", "d2"].iter().find(|d| Self::data_bytes(d) == data).map(|s| s.to_string()).unwrap_or("BadData".into()) };
+            let dname = if data.is_empty() { "none".to_string() } else { ["d1", "d2", "b1", "b2", "b31", "b32", "b33"].iter().find(|d| Self::data_bytes(d) == data).map(|s| s.to_string()).unwrap_or("BadData".into()) };
             let dst = jbytes(&m["dst"]);
             (dest, json!({"inner": "transfer", "id": id, "sender": sender, "destAddr": String::from_utf8_lossy(&dst), "amt": amt as i64, "data": dname}))
         } else {
